@@ -333,6 +333,24 @@ class BV(object):
 CLASHES = []
 
 
+class TabVal(object):
+    """element of a constant table at an abstract index (an opaque value: only stored, loaded and compared for identity)"""
+    __slots__ = ('table', 'idx')
+
+    def __init__(self, table, idx):
+        self.table, self.idx = table, idx
+
+    def __repr__(self):
+        return 'TAB[%s]' % (show(self.idx.bits, 8) if isinstance(self.idx, BV) else self.idx)
+
+
+def tab(table, idx):
+    """reference-side table look-up: the element for a known index, TabVal otherwise"""
+    if isinstance(idx, int):
+        return table[idx]
+    return TabVal(tuple(table), idx)
+
+
 def mk(bits, lo, hi):
     """normalised abstract value: interval tightened by the bits, unknown bits fixed by the interval; an int when known"""
     umin = sum(1 << i for i, x in enumerate(bits) if x == '1')
@@ -557,3 +575,69 @@ def explore(sources, run_fn, ref_fn, equal, max_leaves=4096):
             a2[split] = b
             stack.append(a2)
     return leaves, bad, und
+
+
+# ------------------------------------------------------------------ comparing outputs with a reference
+
+def eq_out(nbits):
+    """comparison of two output lists, element by element on the low nbits: True / False / None (unknown bits left)"""
+    def eq(got, want):
+        if got is None or want is None:
+            return None
+        if len(got) != len(want):
+            return False
+        unknown = False
+        for g_, w_ in zip(got, want):
+            if isinstance(g_, tuple) or isinstance(w_, tuple):
+                if g_ != w_:
+                    return False            # markers such as ('OOB', ...) never equal a value
+                continue
+            if isinstance(g_, TabVal) or isinstance(w_, TabVal):
+                if not (isinstance(g_, TabVal) and isinstance(w_, TabVal)):
+                    return False
+                gi, wi = to_bits(g_.idx, W), to_bits(w_.idx, W)
+                if 'X' in gi or 'X' in wi:
+                    unknown = True
+                    continue
+                if gi != wi:
+                    return False
+                ks = g_.idx.candidates() if isinstance(g_.idx, BV) else [g_.idx]
+                if any(not (0 <= k < len(g_.table) and 0 <= k < len(w_.table)) or g_.table[k] != w_.table[k] for k in ks):
+                    return False
+                continue
+            gb, wb = to_bits(g_, nbits), to_bits(w_, nbits)
+            if 'X' in gb or 'X' in wb:
+                if any(x != y and x in ('0', '1') and y in ('0', '1') for x, y in zip(gb, wb)):
+                    return False
+                unknown = True
+            elif gb != wb:
+                return False
+        return None if unknown else True
+    return eq
+
+
+def hexs(vals, width):
+    m = (1 << width) - 1
+    out = []
+    for v in vals:
+        if isinstance(v, int):
+            out.append(('%0' + str(width // 4) + 'x') % (v & m))
+        elif isinstance(v, tuple):
+            out.append('<%s>' % (v[1] if len(v) > 1 else v[0]))
+        else:
+            out.append('?')
+    return '[' + ' '.join(out) + ']'
+
+
+def confirm(sources, assign, run_fn, ref_fn, nbits):
+    """a symbolic mismatch is reported only with a concrete member of the case on which the two interpretations differ"""
+    eq = eq_out(nbits)
+    for pat in (0, -1, 0x5555555555555555, 0xaaaaaaaaaaaaaaaa, 0x3333333333333333, 0x0f0f0f0f0f0f0f0f, 1, 0x80, 0x8000):
+        try:
+            vals = [s_.concrete(assign, pat) for s_ in sources]
+            got, want = run_fn(vals), ref_fn(vals)
+        except (Infeasible, Unsupported, TypeError):
+            continue
+        if eq(got, want) is False:
+            return vals, got, want
+    return None
